@@ -20,11 +20,24 @@
    Two code variants: [Repaired] (insideLoopBody published BEFORE shouldBeRunning is tested,
    cleared on the idle path) and [Original] (the code as found, kept to document the defect).
    Two launch methods: THREAD (destructor joins) and TASK (no join). *)
-From Coq Require Import List Bool PArith FSets.FSetPositive.
+From Coq Require Import List Bool PArith ZArith FSets.FSetPositive.
 Import ListNotations.
 
 Inductive launch := THREAD | TASK.
 Inductive variant := Repaired | Original.
+
+(* The constructor's launch-method resolution (AsyncLoop.h, end of the constructor):
+     if (m == AUTO) m = tasking::numTaskingThreads() > 4 ? TASK : THREAD;
+     if (m == THREAD) backgroundThread = std::thread(mainLoop); else tasking::schedule(mainLoop);
+   [method] is the constructor argument, [n] the value of numTaskingThreads() (an int; 0 while the
+   tasking system is not initialised).  THREAD = the object owns a joinable thread. *)
+Inductive method := MAuto | MThread | MTask.
+Definition resolve (m : method) (n : Z) : launch :=
+  match m with
+  | MThread => THREAD
+  | MTask => TASK
+  | MAuto => if (4 <? n)%Z then TASK else THREAD
+  end.
 Definition system := (launch * variant)%type.
 
 (* loop thread: the point at which it is parked *)
